@@ -267,6 +267,58 @@ def concat_of(ch):
     return L, W, F, has
 
 
+def _proxy_get(srv):
+    """ProxyGetRequest::call (the optional GET-to-RPC middleware): a request is rewritten into a JSON POST only when its method is GET *and* its path is a configured
+    one; every other request - other methods on that path, other paths - reaches the inner service as it came, so the method / content-type gate still applies to it"""
+    b = R.find_body(srv, r"^fn proxy_get_request::<impl at server/src/middleware/http/proxy_get_request\.rs:[\d: ]+>::call\(_1: &mut ProxyGetRequest<S>, _2: hyper::Request<B>\)")
+    inner_kinds = R.dep_enum("jsonrpsee-server", "http", "src/method.rs", "Inner")
+    GET = inner_kinds.index("Get")
+    found = z3.Bool("path.configured")
+
+    def m_get(ex, st, c, a, d, s_):
+        return Fork([(found, lambda ex_, st_, tr: ex_.mk_variant("Option", 1, "Some", Ptr(Node("the_rpc_method", "String")))), (z3.Not(found), lambda ex_, st_, tr: ex_.mk_variant("Option", 0, "None"))])
+    models = [(r"HashMap::<.*>::get::<str>$", m_get)] + list(SQ.TRY_MODELS) + list(M.TRACING_MODELS)
+    ctx = P.make_ctx(srv, extra_models=models, max_paths=800)
+    ctx.inline = []
+    ex = Executor(ctx)
+    ps = ex.run(b)
+    bad = [(p.kind, p.detail) for p in ps if p.kind in ("unsupported", "limit", "unwound")]
+    viol, reach = [], {"rewritten": [], "passed-on": []}
+    for p in ps:
+        if p.kind != "return":
+            continue
+        pc = p.cond()
+        evs = [e for e in p.events if e.kind == "call"]
+        rew = [e for e in evs if re.search(r"Request::<B>::(method_mut|uri_mut|headers_mut)$", e.callee)]
+        inner = [e for e in evs if re.search(r"as (tower::)?Service<.*>>::call$", e.callee)]
+        # the tests this path made on the request's method: `discr(inner of method()) == k`
+        # the discriminant of the request's method, as this path read it (a sub-term of its path condition)
+        mterm = None
+        todo, seen_ids = list(p.pc), set()
+        while todo and mterm is None:
+            t = todo.pop()
+            if t.get_id() in seen_ids:
+                continue
+            seen_ids.add(t.get_id())
+            if z3.is_app(t) and t.decl().name().startswith("discr/") and "Request::<B>::method/" in str(t) and "Uri::" not in str(t):
+                mterm = t
+                break
+            todo.extend(t.children())
+        is_get_only = mterm is not None and not ex.feasible(list(p.pc) + [mterm != z3.BitVecVal(GET, mterm.size())])
+        if rew:
+            reach["rewritten"].append(pc)
+            if ex.feasible(list(p.pc) + [z3.Not(found)]) or not is_get_only:
+                viol.append(pc)
+        else:
+            reach["passed-on"].append(pc)
+            # the inner service gets this very request (only its body type is converted: Request::map(HttpBody::new))
+            a1 = inner[0].args[1] if inner else None
+            txt = (a1.name if isinstance(a1, Node) and a1.val is None and not a1.kids else str(to_term(MM.value_of(ex, a1)))) if a1 is not None else ""
+            if len(inner) != 1 or "arg2" not in txt:
+                viol.append(pc)
+    return b, viol, reach, bad
+
+
 def obligations(tier, seed):
     core = R.bodies("core")
     srv = R.bodies("server")
@@ -322,6 +374,16 @@ def obligations(tier, seed):
         out.append(r)
     out.append(sniff_closure_obligation(core))
     out += _gate(srv)
+    b_, viol_, reach_, bad_ = _proxy_get(srv)
+    reach_l = R.live_reach(viol_, reach_, bad_)
+    if bad_ or not all(reach_l):
+        out.append(R.Result(engine="mirsym", name="order:ProxyGetRequest::call", kind="order", status="unsupported" if bad_ else "vacuous", detail=str(bad_[:1] or {k: len(v) for k, v in reach_.items()})[:300], bodies=[b_.name]))
+    else:
+        out.append(R.decide("order:ProxyGetRequest::call:only-GET-on-a-configured-path", "order", z3.Or(*viol_) if viol_ else z3.BoolVal(False), [z3.Or(*v) for v in reach_l], bodies=[b_.name],
+                            desc="the GET-proxy middleware rewrites a request into a JSON POST only when its method is GET and its path is a configured one; anything else reaches the inner "
+                                 "service untouched (so other methods are still answered 405 and other content types 415 there)",
+                            bounds="path configured or not; every method", keydetail="proxy-get",
+                            replay=dict(scenario="c19_proxy_get", vars={}, fixed={}, region=z3.BoolVal(True))))
     return out
 
 
